@@ -253,6 +253,43 @@ def run_shards(modname: str, shards: list[dict], procs: int = 16) -> tuple[Colle
     return col, errors
 
 
+def _shrink_entry(args: tuple) -> dict:
+    modname, case, target, budget = args
+    import importlib
+
+    try:
+        worker_scratch()
+        mod = importlib.import_module(modname)
+
+        valid = getattr(mod, "valid_case", None)
+
+        def still(c):
+            if valid is not None and not valid(c):
+                return False  # shrinking must stay inside the sound input domain
+            return any(list(v.sig) == target for v in mod.evaluate(c))
+
+        if not any(list(v.sig) == target for v in mod.evaluate(case)):
+            return {"case": case, "reproduced": False, "evals": 1}
+        small, evals = ddmin(case, still, budget_s=budget)
+        return {"case": small, "reproduced": True, "evals": evals}
+    except BaseException as e:
+        return {"case": case, "reproduced": False, "evals": 0, "error": f"{type(e).__name__}: {e}"}
+
+
+def shrink_buckets(modname: str, buckets: list[dict], total_budget_s: float, procs: int = 16) -> list[dict]:
+    """Minimise each bucket's case in parallel worker processes; total wall budget is bounded."""
+    import multiprocessing as mp
+
+    if not buckets:
+        return []
+    procs = max(1, min(procs, len(buckets), int(os.environ.get("VERIF_PROCS", "16"))))
+    rounds = (len(buckets) + procs - 1) // procs
+    per = max(5.0, total_budget_s / rounds)
+    ctx = mp.get_context("spawn")
+    with ctx.Pool(procs) as pool:
+        return pool.map(_shrink_entry, [(modname, b["case"], b["sig"], per) for b in buckets])
+
+
 # ---------------------------------------------------------------------------------------------
 # known findings
 
